@@ -86,6 +86,31 @@ func storesCallArgs(cs []*ast.CallExpr) []string {
 	return r
 }
 
+// storesAssigns lists, in source order, the assignments / short variable declarations of body whose
+// left-hand side is the single identifier lhs.
+func storesAssigns(body ast.Node, lhs string) []string {
+	var r []string
+	if body == nil {
+		return r
+	}
+	ast.Inspect(body, func(n ast.Node) bool {
+		if a, ok := n.(*ast.AssignStmt); ok && len(a.Lhs) == 1 {
+			if id, ok := a.Lhs[0].(*ast.Ident); ok && id.Name == lhs {
+				r = append(r, text(a))
+			}
+		}
+		return true
+	})
+	return r
+}
+
+func storesTail(xs []string) []string {
+	if len(xs) == 0 {
+		return nil
+	}
+	return xs[1:]
+}
+
 func factsStores() {
 	// ---- C15
 	bucket := parse("pkg/store/bucket.go")
@@ -101,4 +126,12 @@ func factsStores() {
 		storesCallArgs(calls(body(getFor), "getFor")))
 	emitList("storesGetForAppends", "pkg/store/bucket.go bucketBlockSet.getFor: how results are appended (recursive results must go through appendMissingBlocks), in order",
 		callSeq(body(getFor), "append", "appendMissingBlocks"))
+
+	// ---- C08
+	tsdbf := parse("pkg/store/tsdb.go")
+	tser := body(fn(tsdbf, "TSDBStore", "Series"))
+	emitList("storesTSDBComplete", "pkg/store/tsdb.go TSDBStore.Series: how the served label set is put together",
+		append(storesAssigns(tser, "finalExtLset"), storesAssigns(tser, "completeLabelset")...))
+	emitList("storesBucketComplete", "pkg/store/bucket.go newBlockSeriesClient / blockSeriesClient.nextBatch: how the served label set is put together",
+		append(storesTail(storesAssigns(body(fn(bucket, "", "newBlockSeriesClient")), "extLset")), storesAssigns(body(fn(bucket, "blockSeriesClient", "nextBatch")), "completeLabelset")...))
 }
